@@ -719,8 +719,12 @@ func deathVerdict(c Case) func(o batchOutcome) (string, string, bool) {
 	return func(o batchOutcome) (string, string, bool) {
 		switch o.death {
 		case "hang":
+			// scenario cases are identified by their scenario (the busiest frame of a dump with millions of
+			// goroutines is not a stable identity), single-field mutations by the busiest frame
 			sig := "hang-past-deadline/" + c.RPC
-			if f := hangFrame(o.stderr); f != "" {
+			if c.Scn != "" {
+				sig += "/" + c.Kind + ":" + c.Scn
+			} else if f := hangFrame(o.stderr); f != "" {
 				sig += "@" + f
 			}
 			return sig, fmt.Sprintf("no answer within the watchdog (%s = 20x the %s request deadline; %s CPU burnt on the case when killed); goroutine dump:\n%s", watchdog, RequestDeadline, o.hangCPU.Round(time.Second), trunc(o.stderr, 6000)), true
